@@ -298,15 +298,33 @@ def impl(case):
 # --------------------------------------------------------------------------------------
 def seg_all(s):
     """every character is a `segChar`"""
-    return all(c not in "/?#;\t\r\n" for c in s)
+    return all(c not in "/?#\t\r\n" for c in s)
 
 
 def seg_ok(s):
     return s != "" and seg_all(s) and s not in (".", "..") and not s[0].isspace() and not s[-1].isspace()
 
 
+def last_semi_ok(s):
+    """`Ural.Facebook.lastSemiOk`: what precedes the first ';' is no dot segment, the first ';' is not the last character"""
+    head, sep, tail = s.partition(";")
+    return head not in (".", "..") and not (sep and tail == "")
+
+
+def last_ok(s):
+    return seg_ok(s) and last_semi_ok(s)
+
+
+_HEX = "0123456789abcdefABCDEF"
+
+
+def has_escape(s):
+    """`Ural.Facebook.hasEscape`: a '%' followed by two hexadecimal digits"""
+    return any(s[i] == "%" and i + 2 < len(s) and s[i + 1] in _HEX and s[i + 2] in _HEX for i in range(len(s)))
+
+
 def qval_ok(s):
-    return s != "" and all(c not in "&#+%\t\r\n" for c in s)
+    return s != "" and all(c not in "&#+\t\r\n" for c in s) and not has_escape(s)
 
 
 def no_watch(s):
@@ -320,12 +338,12 @@ def reparsable(fb, r):
         return r.handle is None and qval_ok(r.id)
     if t == "FacebookHandle":
         h = r.handle
-        return seg_ok(h) and no_watch(h) and not h.startswith("people") and not h.endswith(".php")
+        return last_ok(h) and no_watch(h) and not h.startswith("people") and not h.endswith(".php")
     if t == "FacebookGroup":
         if (r.id is None) == (r.handle is None):
             return False
         g = r.id if r.id is not None else r.handle
-        return seg_ok(g) and no_watch(g) and (isid(g) == (r.id is not None))
+        return last_ok(g) and no_watch(g) and (isid(g) == (r.id is not None))
     if t == "FacebookPost":
         set_ = [x is not None for x in (r.parent_id, r.parent_handle, r.group_id, r.group_handle)]
         if sum(set_) != 1:
@@ -334,15 +352,15 @@ def reparsable(fb, r):
             return qval_ok(r.parent_id) and qval_ok(r.id)
         if r.parent_handle is not None:
             ph = r.parent_handle
-            return (seg_ok(ph) and seg_ok(r.id) and no_watch(ph) and no_watch(r.id) and not isid(ph)
+            return (seg_ok(ph) and last_ok(r.id) and no_watch(ph) and no_watch(r.id) and not isid(ph)
                     and ph not in ("videos", "photos", "groups"))
         g = r.group_id if r.group_id is not None else r.group_handle
-        return (seg_ok(g) and seg_ok(r.id) and no_watch(g) and no_watch(r.id) and g not in ("videos", "photos")
+        return (seg_ok(g) and last_ok(r.id) and no_watch(g) and no_watch(r.id) and g not in ("videos", "photos")
                 and isid(g) == (r.group_id is not None))
     if t == "FacebookVideo":
         if r.parent_id is None:
             return qval_ok(r.id)
-        return seg_ok(r.parent_id) and seg_ok(r.id) and no_watch(r.parent_id) and no_watch(r.id)
+        return seg_ok(r.parent_id) and last_ok(r.id) and no_watch(r.parent_id) and no_watch(r.id)
     if t == "FacebookPhoto":
         if r.parent_id is None and r.parent_handle is None:
             return qval_ok(r.id) and all(x is None or qval_ok(x) for x in (r.group_id, r.album_id))
@@ -352,48 +370,53 @@ def reparsable(fb, r):
             return False
         p = r.parent_id if r.parent_id is not None else r.parent_handle
         a = r.album_id
-        return (seg_ok(p) and seg_ok(r.id) and a != "" and seg_all(a) and not a[-1].isspace() and no_watch(p)
+        return (seg_ok(p) and last_ok(r.id) and a != "" and seg_all(a) and not a[-1].isspace() and no_watch(p)
                 and no_watch(r.id) and p != "videos" and isid(p) == (r.parent_id is not None))
     return False
 
 
 def seg_chars(s):
-    """`Ural.Facebook.segChars`"""
-    return ";" not in s and s not in (".", "..")
+    """`Ural.Facebook.segChars`: a path-borne field that does not end the canonical path"""
+    return s not in (".", "..")
+
+
+def last_chars(s):
+    """`Ural.Facebook.lastChars`: the path-borne field that ends the canonical path"""
+    return last_semi_ok(s)
 
 
 def qval_chars(s):
     """`Ural.Facebook.qvalChars`"""
-    return all(c not in "&#+%\t\r\n" for c in s)
+    return all(c not in "&#+\t\r\n" for c in s) and not has_escape(s)
 
 
 def chars_ok(r):
-    """`Ural.Facebook.charsOk`: the character-level hypothesis of `reparse_of_parse_partial`"""
+    """`Ural.Facebook.charsOk`: the exact condition of the round trip (`reparse_iff`)"""
     t = type(r).__name__
     if t == "FacebookUser":
         return r.handle is None and qval_chars(r.id)
     if t == "FacebookHandle":
-        return seg_chars(r.handle)
+        return last_chars(r.handle)
     if t == "FacebookGroup":
         if (r.id is None) == (r.handle is None):
             return False
-        return seg_chars(r.id if r.id is not None else r.handle)
+        return last_chars(r.id if r.id is not None else r.handle)
     if t == "FacebookPost":
         parents = (r.parent_id, r.parent_handle, r.group_id, r.group_handle)
         if sum(x is not None for x in parents) != 1:
             return False
         if r.parent_id is not None:
             return qval_chars(r.parent_id) and qval_chars(r.id)
-        return seg_chars([x for x in parents if x is not None][0]) and seg_chars(r.id)
+        return seg_chars([x for x in parents if x is not None][0]) and last_chars(r.id)
     if t == "FacebookVideo":
-        return qval_chars(r.id) if r.parent_id is None else (seg_chars(r.parent_id) and seg_chars(r.id))
+        return qval_chars(r.id) if r.parent_id is None else (seg_chars(r.parent_id) and last_chars(r.id))
     if t == "FacebookPhoto":
         if r.parent_id is None and r.parent_handle is None:
             return qval_chars(r.id) and all(x is None or qval_chars(x) for x in (r.group_id, r.album_id))
         if (r.parent_id is not None and r.parent_handle is not None) or r.group_id is not None or r.album_id is None:
             return False
         p = r.parent_id if r.parent_id is not None else r.parent_handle
-        return seg_chars(p) and seg_chars(r.id) and ";" not in r.album_id
+        return seg_chars(p) and last_chars(r.id)
     return False
 
 
